@@ -28,3 +28,7 @@ Proof. unfold dot3, u2, b. replace (x * y * a * x + (sg + y * y * a) * y + - y *
 Lemma u1_orth_input : dot3 u1 (x, y, z) = 0.
 Proof. unfold dot3, u1, b. replace ((1 + sg * x * x * a) * x + sg * (x * y * a) * y + - sg * x * z) with (x * (1 - sg * z) + sg * x * (a * (x*x + y*y))) by ring. rewrite a_eq. replace (x * (1 - sg * z) + sg * x * - (sg - z)) with (x * (1 - sg * sg)) by ring. rewrite sg2. ring. Qed.
 End Ortho.
+
+(* any_orthogonal_vector: both candidates are orthogonal to the input (they are its cross products with Y resp. X) *)
+Lemma any_orth_1 (x y z : R) : (- z) * x + 0 * y + x * z = 0. Proof. ring. Qed.
+Lemma any_orth_2 (x y z : R) : 0 * x + z * y + (- y) * z = 0. Proof. ring. Qed.
